@@ -167,6 +167,20 @@ fn run<C: CI>(ctx: &mut Ctx) {
             }
         }
     });
+    ctx.group(&format!("{name}/exact-fit"), |ctx| {
+        // the iterated window is the tail of an allocation without spare words (whole-word lengths, aligned /
+        // unaligned starts): the last items and the last windows / chunks must not read past the content
+        let cases = exact_fit_cases_for(ctx, a.bits);
+        for (n, pad) in cases {
+            if ctx.over() {
+                break;
+            }
+            let _fit = exact_fit_mode();
+            let codes = cover_codes(&mut ctx.rng, a, n);
+            one::<C>(ctx, &codes, pad, n <= 2 * pw && !ctx.lite);
+            cell!(ctx, "{name}/exact-fit/{}/pad{}", len_class(a.bits, n), if pad == 0 { "0" } else if (pad * a.bits as usize) % 64 == 0 { "word" } else { "unaligned" });
+        }
+    });
     ctx.group(&format!("{name}/random"), |ctx| {
         for r in 0..ctx.n(400, 10_000, 3) {
             if ctx.over() {
@@ -208,6 +222,19 @@ fn run<C: CI>(ctx: &mut Ctx) {
 
 fn main() {
     run_main("C11", |ctx| {
+        ctx.first_use_race(3, |t| {
+            let d: Seq<Dna> = "ACGTTGCAACGTACGTACGTACGTACGTACGTTTGAC".try_into().unwrap();
+            let i: Seq<Iupac> = "ACGTRYSWKMBDHVN-ACGT".try_into().unwrap();
+            let m: Seq<Amino> = "MAGICLIFEQRSTVWY*".try_into().unwrap();
+            (
+                d[t..].iter().map(|x| x.to_bits()).collect::<Vec<u8>>(),
+                d[t..].rev_iter().map(|x| x.to_bits()).collect::<Vec<u8>>(),
+                d[t..].windows(5 + t).map(|w| w.to_string()).collect::<Vec<String>>(),
+                i[t..].chunks(3 + t).map(|w| w.to_string()).collect::<Vec<String>>(),
+                m.iter().chain(m[t..].iter()).map(|x| x.to_bits()).collect::<Vec<u8>>(),
+                d.chunks(4).collect::<Vec<Seq<Dna>>>().len(),
+            )
+        });
         for_each_codec!(run, ctx);
         ctx.note("rule", json!("per codec: slices of every length 0..12 and every word-boundary class up to 2.5 words at varying (thorough: all) bit offsets: iter / into_iter (slice and owned) / rev_iter, and windows(w), chunks(w) for EVERY w in 1..=n+2, each drained with a step bound of expected+5 next() calls and two further calls after None; nth / skip / step_by (small, n, n+1 and huge arguments up to usize::MAX) / repeated nth / count / last / size_hint on iter, rev_iter, windows and chunks; random longer slices (every 10th of 4..33 machine words) with boundary widths; chain of two slices at independent offsets incl. empty operands. Distinct = (codec, content, pad, width); all non-trivial."));
     });
